@@ -549,16 +549,45 @@ $SIGMA 1
 $ESTIMATION METHOD=1
 '''
 
-CL_PARSE = '%s: valid NM-TRAN abbreviated code is read without error'
-CL_VALUE = {
-    'block': 'IF block: every symbol assigned on the executed path has the value given by sequential NM-TRAN semantics',
-    'nested': 'nested IF block: every symbol assigned on the executed path has the value given by sequential NM-TRAN semantics',
-    'logif': 'logical IF: every symbol assigned on the executed path has the value given by sequential NM-TRAN semantics',
-    'expr': 'arithmetic expression: value follows Fortran operator precedence and associativity',
-    'cond': 'logical condition: value follows Fortran precedence (.NOT. over .AND. over .OR.) and relational operator meaning',
-    'func': 'intrinsic or protected function: value follows the NM-TRAN definition',
+_KIND_TEXT = {
+    'block/plain': 'IF block (every symbol assigned in every branch, no data flow inside the block)',
+    'block/reads': 'IF block (a right hand side reads a symbol assigned in the block)',
+    'block/symcond': 'IF block (a condition reads a symbol assigned in the block)',
+    'block/partial': 'IF block (a symbol is assigned in only some of the branches)',
+    'block/dup': 'IF block (a branch assigns the same symbol twice)',
+    'nested': 'nested IF',
+    'logif': 'logical IF',
+    'expr': 'arithmetic expression',
+    'cond': 'logical condition without parentheses',
+    'cond/par': 'logical condition with parenthesised logical sub-expressions',
 }
-CL_UNASSIGNED = '%s: a symbol that NM-TRAN leaves unassigned on the executed path is not given a value'
+
+
+def _kind_text(kind):
+    if kind.startswith('func/'):
+        return 'intrinsic function ' + kind[5:]
+    return _KIND_TEXT[kind]
+
+
+def _parse_clause(kind):
+    return _kind_text(kind) + ': valid NM-TRAN abbreviated code is read without error'
+
+
+def _value_clause(kind):
+    if kind.startswith('func/'):
+        return _kind_text(kind) + ': value equals the NM-TRAN definition of the function'
+    if kind == 'expr':
+        return 'arithmetic expression: value follows Fortran operator precedence and associativity'
+    if kind.startswith('cond'):
+        return (_kind_text(kind) + ': truth value follows Fortran precedence (.NOT. over .AND. over .OR.)'
+                ' and the relational operator meaning')
+    return (_kind_text(kind) + ': every symbol assigned on the executed path has the value given by'
+            ' sequential NM-TRAN semantics')
+
+
+def _unassigned_clause(kind):
+    return (_kind_text(kind) + ': a symbol that NM-TRAN leaves unassigned on the executed path is not'
+            ' given a value')
 
 
 def _suffix(lines, i):
@@ -577,8 +606,7 @@ def gen_block_programs(tier):
     }
     other = {'VA': 'VB', 'VB': 'VA'}
 
-    def branch_bodies(b, maxlen):
-        rhs_kinds = ('const', 'other', 'self') if thorough else ('const', 'other')
+    def branch_bodies(b, maxlen, rhs_kinds):
         single = []
         for p in range(2):
             opts = []
@@ -603,7 +631,10 @@ def gen_block_programs(tier):
     shapes = [('if',), ('if', 'else'), ('if', 'elif'), ('if', 'elif', 'else'), ('if', 'elif', 'elif')]
     for shape in shapes:
         maxlen = 2 if (thorough or len(shape) < 3) else 1
-        for bodies in itertools.product(*[branch_bodies(b, maxlen) for b in range(len(shape))]):
+        rhs_kinds = ('const', 'other', 'self') if (thorough and len(shape) < 3) else ('const', 'other')
+        for bodies in itertools.product(
+            *[branch_bodies(b, maxlen, rhs_kinds) for b in range(len(shape))]
+        ):
             if not any(bodies):
                 continue
             for mode, conds in cond_modes.items():
@@ -626,7 +657,25 @@ def gen_block_programs(tier):
                             lines.append('ELSE')
                         lines.extend('  ' + b for b in body)
                     lines.append('ENDIF')
-                    yield ('block', lines)
+                    yield ('block/' + _block_class(shape, bodies, mode), lines)
+
+
+def _block_class(shape, bodies, mode):
+    targets = [[a.split('=')[0].strip() for a in body] for body in bodies]
+    assigned = set(t for ts in targets for t in ts)
+    if any(len(ts) != len(set(ts)) for ts in targets):
+        return 'dup'
+    if 'else' not in shape or any(set(ts) != assigned for ts in targets):
+        return 'partial'
+    if mode == 'symbol':
+        nconds = sum(1 for k in shape if k != 'else')
+        cond_reads = {'VA'} | ({'VB'} if nconds == 3 else set())
+        if cond_reads & assigned:
+            return 'symcond'
+    reads = set(m for body in bodies for a in body for m in re.findall(r'V[AB]', a.split('=')[1]))
+    if reads & assigned:
+        return 'reads'
+    return 'plain'
 
 
 def gen_nested_programs(tier):
@@ -776,10 +825,10 @@ def gen_cond_programs(tier):
     lits = lambda pool: [a for x in pool for a in (x, '.NOT.' + x)]  # noqa: E731
     seen = set()
 
-    def emit(c):
+    def emit(c, kind='cond'):
         if c not in seen:
             seen.add(c)
-            return [('cond', ['VX = 0', f'IF ({c}) VX = 1'])]
+            return [(kind, ['VX = 0', f'IF ({c}) VX = 1'])]
         return []
 
     for a in lits(atoms):
@@ -805,8 +854,16 @@ def gen_cond_programs(tier):
     for c in ('(WGT.GT.50.OR.AGE.LT.30).AND.WGT.EQ.60', 'WGT.GT.50.OR.(AGE.LT.30.AND.WGT.EQ.60)',
               '.NOT.(WGT.GT.50.OR.AGE.LT.30)', '.NOT.(WGT.GT.50.AND.AGE.LT.30)',
               '.NOT.(WGT.GT.50).AND.AGE.LT.30', '(WGT.GT.50)', '((WGT.GT.50).AND.(AGE.LT.30))',
-              'WGT.GT.50 .AND. AGE.LT.30 .OR. WGT.EQ.40', 'WGT.GT.50.AND..NOT.AGE.LT.30'):
+              '(WGT.GT.50.AND.AGE.LT.30).OR.(WGT.EQ.40.AND.AGE.GE.30)',
+              '.NOT.(WGT.GT.50.OR.AGE.LT.30).AND.(WGT.EQ.40.OR.AGE.GE.30)'):
+        yield from emit(c, 'cond/par')
+    for c in ('WGT.GT.50 .AND. AGE.LT.30 .OR. WGT.EQ.40', 'WGT.GT.50.AND..NOT.AGE.LT.30'):
         yield from emit(c)
+
+
+_CANON = {'DEXP': 'EXP', 'DLOG': 'LOG', 'ALOG': 'LOG', 'DLOG10': 'LOG10', 'ALOG10': 'LOG10',
+          'DSQRT': 'SQRT', 'DSIN': 'SIN', 'DCOS': 'COS', 'DTAN': 'TAN', 'PTAN': 'TAN', 'DABS': 'ABS',
+          'DINT': 'INT', 'DMOD': 'MOD'}
 
 
 def gen_func_programs(tier):
@@ -818,16 +875,16 @@ def gen_func_programs(tier):
            'PHI']
     for f in fn1:
         for a in args1:
-            yield ('func', [f'VX = {f}({a})'])
-    yield ('func', ['VX = exp(wgt/100)'])
-    yield ('func', ['VX = 2*EXP(-WGT/100)**2+LOG(AGE)'])
+            yield ('func/' + _CANON.get(f, f), [f'VX = {f}({a})'])
+    yield ('func/EXP', ['VX = exp(wgt/100)'])
+    yield ('func/EXP', ['VX = 2*EXP(-WGT/100)**2+LOG(AGE)'])
     args2 = [('WGT', '7'), ('-WGT', '7'), ('WGT', '-7'), ('-WGT', '-7'), ('WGT', 'AGE'), ('AGE', 'WGT'),
              ('WGT/7', '2.5'), ('WGT', '60'), ('60', 'WGT')]
     for f in ('MOD', 'DMOD', 'MIN', 'MAX'):
         for a, b in args2:
-            yield ('func', [f'VX = {f}({a},{b})'])
+            yield ('func/' + _CANON.get(f, f), [f'VX = {f}({a},{b})'])
             if tier == 'thorough':
-                yield ('func', [f'VX = 1 + {f}({a}, {b})*2'])
+                yield ('func/' + _CANON.get(f, f), [f'VX = 1 + {f}({a}, {b})*2'])
 
 
 _GENERATORS = {
@@ -836,10 +893,23 @@ _GENERATORS = {
 }
 
 
+def _speedup():
+    """pharmpy asks importlib.metadata for the lark version once per parse-tree node (half of the
+    parse time).  The answer is a constant of the installation, so it is memoised for this process.
+    Pure performance: the value returned is the one the unpatched call returns."""
+    import functools
+
+    import pharmpy.internals.parse.ignored as ign
+
+    if not hasattr(ign.version, 'cache_info'):
+        ign.version = functools.lru_cache(maxsize=None)(ign.version)
+
+
 def _pool_init():
     warnings.filterwarnings('ignore')
     import pharmpy.modeling  # noqa: F401
 
+    _speedup()
     _init_ir_tables()
 
 
@@ -850,6 +920,7 @@ def _check_programs(progs):
 
     if _IR_REL is None:
         _init_ir_tables()
+        _speedup()
     renamed = [_suffix(lines, i) for i, (_, lines) in enumerate(progs)]
     body = '\n'.join('\n'.join(r) for r in renamed)
     try:
@@ -858,7 +929,7 @@ def _check_programs(progs):
     except Exception as exc:  # any exception: the programs are valid NM-TRAN
         if len(progs) == 1:
             kind = progs[0][0]
-            return [(0, True, [(CL_PARSE % kind, f'{type(exc).__name__}: {str(exc)[:200]}')])]
+            return [(0, True, [(_parse_clause(kind), f'{type(exc).__name__}: {str(exc)[:200]}')])]
         out = []
         for i, p in enumerate(progs):
             r = _check_programs([p])
@@ -890,12 +961,12 @@ def _check_programs(progs):
                 if s in ref_env:
                     want = ref_env[s]
                     if got is None or not close(got, want):
-                        fails.append((CL_VALUE[kind],
+                        fails.append((_value_clause(kind),
                                       f'at WGT={point["WGT"]:g} AGE={point["AGE"]:g}: NM-TRAN gives '
                                       f'{_unsuffix(s)}={want:.12g}, model statements give {got}'))
                         break
                 elif got is not None and got != 0:
-                    fails.append((CL_UNASSIGNED % kind,
+                    fails.append((_unassigned_clause(kind),
                                   f'at WGT={point["WGT"]:g} AGE={point["AGE"]:g}: NM-TRAN leaves '
                                   f'{_unsuffix(s)} unassigned, model statements give {got}'))
                     break
@@ -946,10 +1017,10 @@ def _run_pool(worker, jobs, chunksize=1):
 def bounded_abbreviated_code(tier='quick'):
     programs = []
     counts = {}
-    for kind, gen in _GENERATORS.items():
+    for gname, gen in _GENERATORS.items():
         n0 = len(programs)
         programs.extend(gen(tier))
-        counts[kind] = len(programs) - n0
+        counts[gname] = len(programs) - n0
 
     fails = {}
     bad = _selfcheck_expr_renderer(tier)
@@ -959,7 +1030,7 @@ def bounded_abbreviated_code(tier='quick'):
             'detail': f'{bad[:3]}', 'case': {'kind': 'expr', 'lines': ['VX = ' + bad[0]]},
             'replay_fn': 'bounded_abbreviated_code_replay'}
 
-    batch = 25
+    batch = 60
     jobs = [programs[i : i + batch] for i in range(0, len(programs), batch)]
     results = _run_pool(_check_programs, jobs)
 
@@ -969,14 +1040,14 @@ def bounded_abbreviated_code(tier='quick'):
             nontrivial += bool(nt)
             kind, lines = job[i]
             for clause, detail in fl:
-                fid = FID_PARSE_TREE if kind in ('block', 'nested', 'logif') else FID_EXPR
+                fid = FID_PARSE_TREE if kind.split('/')[0] in ('block', 'nested', 'logif') else FID_EXPR
                 key = (fid, clause)
                 size = (len(lines), sum(len(x) for x in lines), lines)
                 if key not in fails or size < fails[key]['_size']:
                     fails[key] = {
                         'fid': fid, 'clause': clause,
                         'detail': detail + ' for program ' + ' | '.join(x.strip() for x in lines),
-                        'case': {'kind': kind, 'lines': lines},
+                        'case': {'kind': kind, 'lines': lines, 'clause': clause},
                         'replay_fn': 'bounded_abbreviated_code_replay', '_size': size}
     for f in fails.values():
         f.pop('_size', None)
@@ -987,7 +1058,7 @@ def bounded_abbreviated_code(tier='quick'):
         'bound': (
             f'$PRED programs: all IF blocks with <=3 branches (IF/ELSE IF/ELSE) x <=2 assignments per '
             f'branch{"" if tier == "thorough" else " (<=1 when 3 branches)"} over 2 target symbols, right '
-            f'hand sides constant / other symbol+constant{" / self*2+constant" if tier == "thorough" else ""}'
+            f'hand sides constant / other symbol+constant{" / self*2+constant (<=2 branches)" if tier == "thorough" else ""}'
             f', conditions on data or on symbols assigned in the block, 4 pre-definition patterns '
             f'[{counts["block"]}]; one-level nested IFs [{counts["nested"]}]; 1-2 logical IFs '
             f'[{counts["logif"]}]; all arithmetic trees of depth <=2 over + - * / ** unary- with operands '
@@ -1005,7 +1076,7 @@ def bounded_abbreviated_code(tier='quick'):
 def bounded_abbreviated_code_replay(rp):
     case = rp['case']
     res = _check_programs([(case['kind'], list(case['lines']))])
-    fl = res[0][2]
+    fl = [(c, d) for c, d in res[0][2] if case.get('clause') in (None, c)]
     if fl:
         return (False, '; '.join(f'{c}: {d}' for c, d in fl))
     return (True, 'ok')
